@@ -353,6 +353,7 @@ def witnessShape (k : Kind) (c : Cat) : Shape :=
   | .array | .deque | .set | .immSet | .tuple | .map => .coll k (witnessItem c)
   | .anyOf | .oneOf | .allOf | .notF => .wrap k (witnessItem c)
   | .any => .any
+  | .document | .mapping | .names | .required | .enumValues | .default | .schema | .fieldState => .wrap k .any
   | _ => .keyed k [("x", .scalar .number)]
 
 /-- cell 0: the top-level container (kwargs for input operations, the instance for output operations);
